@@ -8,8 +8,8 @@
  * Observation: <hex of the response data> <ok> <value read back: integer | hex bytes | float bits | v,v,..> <errors queued> */
 #include "h_env.h"
 
-static struct { char kind; int bits, sgn, base; uint64_t val; unsigned char data[2400]; size_t dlen; } cur;
-static char rd_out[8192]; static int rd_ok;
+static struct { char kind; int bits, sgn, base; uint64_t val; unsigned char data[2600]; size_t dlen; } cur;
+static char rd_out[9000]; static int rd_ok;
 
 static scpi_result_t emit_cb(scpi_t *ctx) {
     switch (cur.kind) {
@@ -23,9 +23,9 @@ static scpi_result_t emit_cb(scpi_t *ctx) {
         case 'd': { double d; memcpy(&d, &cur.val, 8); SCPI_ResultDouble(ctx, d); break; }
         case 'f': { float f; uint32_t b = (uint32_t) cur.val; memcpy(&f, &b, 4); SCPI_ResultFloat(ctx, f); break; }
         case 'a': { size_t n = cur.dlen / (size_t)(cur.bits / 8), k, j; 
-            if (cur.bits == 32) { int32_t a[64]; for (k = 0; k < n && k < 64; k++) { uint32_t v = 0; for (j = 0; j < 4; j++) v = (v << 8) | cur.data[k * 4 + j]; a[k] = (int32_t) v; }
+            if (cur.bits == 32) { int32_t a[320]; for (k = 0; k < n && k < 320; k++) { uint32_t v = 0; for (j = 0; j < 4; j++) v = (v << 8) | cur.data[k * 4 + j]; a[k] = (int32_t) v; }
                 if (cur.sgn) SCPI_ResultArrayInt32(ctx, a, n, SCPI_FORMAT_ASCII); else SCPI_ResultArrayUInt32(ctx, (uint32_t *) a, n, SCPI_FORMAT_ASCII); }
-            else { int64_t a[64]; for (k = 0; k < n && k < 64; k++) { uint64_t v = 0; for (j = 0; j < 8; j++) v = (v << 8) | cur.data[k * 8 + j]; a[k] = (int64_t) v; }
+            else { int64_t a[320]; for (k = 0; k < n && k < 320; k++) { uint64_t v = 0; for (j = 0; j < 8; j++) v = (v << 8) | cur.data[k * 8 + j]; a[k] = (int64_t) v; }
                 if (cur.sgn) SCPI_ResultArrayInt64(ctx, a, n, SCPI_FORMAT_ASCII); else SCPI_ResultArrayUInt64(ctx, (uint64_t *) a, n, SCPI_FORMAT_ASCII); }
             break; }
     }
@@ -45,9 +45,9 @@ static scpi_result_t read_cb(scpi_t *ctx) {
         case 'd': { double v = 0; uint64_t b; rd_ok = SCPI_ParamDouble(ctx, &v, TRUE); memcpy(&b, &v, 8); sprintf(rd_out, "%016" PRIx64, b); break; }
         case 'f': { float v = 0; uint32_t b; rd_ok = SCPI_ParamFloat(ctx, &v, TRUE); memcpy(&b, &v, 4); sprintf(rd_out, "%08x", b); break; }
         case 'a': { size_t n = 0, k; char *o = rd_out;
-            if (cur.bits == 32) { int32_t a[64]; rd_ok = cur.sgn ? SCPI_ParamArrayInt32(ctx, a, 64, &n, SCPI_FORMAT_ASCII, TRUE) : SCPI_ParamArrayUInt32(ctx, (uint32_t *) a, 64, &n, SCPI_FORMAT_ASCII, TRUE);
+            if (cur.bits == 32) { int32_t a[320]; rd_ok = cur.sgn ? SCPI_ParamArrayInt32(ctx, a, 320, &n, SCPI_FORMAT_ASCII, TRUE) : SCPI_ParamArrayUInt32(ctx, (uint32_t *) a, 320, &n, SCPI_FORMAT_ASCII, TRUE);
                 if (!n) strcpy(rd_out, "-"); for (k = 0; k < n; k++) o += cur.sgn ? sprintf(o, "%s%d", k ? "," : "", a[k]) : sprintf(o, "%s%u", k ? "," : "", (uint32_t) a[k]); }
-            else { int64_t a[64]; rd_ok = cur.sgn ? SCPI_ParamArrayInt64(ctx, a, 64, &n, SCPI_FORMAT_ASCII, TRUE) : SCPI_ParamArrayUInt64(ctx, (uint64_t *) a, 64, &n, SCPI_FORMAT_ASCII, TRUE);
+            else { int64_t a[320]; rd_ok = cur.sgn ? SCPI_ParamArrayInt64(ctx, a, 320, &n, SCPI_FORMAT_ASCII, TRUE) : SCPI_ParamArrayUInt64(ctx, (uint64_t *) a, 320, &n, SCPI_FORMAT_ASCII, TRUE);
                 if (!n) strcpy(rd_out, "-"); for (k = 0; k < n; k++) o += cur.sgn ? sprintf(o, "%s%" PRId64, k ? "," : "", a[k]) : sprintf(o, "%s%" PRIu64, k ? "," : "", (uint64_t) a[k]); }
             break; }
     }
@@ -67,7 +67,7 @@ void run_roundtrip(const char *input) {
     else if (k == 'b' || k == 'd' || k == 'f') { unsigned long long v; if (sscanf(input, "Y %*c %llx", &v) != 1) return; cur.val = v; }
     else if (k == 'a') { if (sscanf(input, "Y a %d %d %4899s", &cur.bits, &cur.sgn, a1) != 3) return; cur.dlen = h_unhex(a1, cur.data, sizeof cur.data - 1); }
     else return;
-    h_env_init(&e, cmds, 5000, 8, 64);
+    h_env_init(&e, cmds, 8000, 8, 64);
     SCPI_Input(&e.ctx, "Q?\n", 3);
     n = e.out_len;
     if (n && e.out[n - 1] == '\n') n--; if (n && e.out[n - 1] == '\r') n--;                                        /* response data without the (one) message terminator */
@@ -121,6 +121,8 @@ void dom_roundtrip(void) {
     }
     /* ASCII arrays */
     n = h_thorough ? 50000 : 5000;
-    for (; n; n--) { int bits = h_chance(50) ? 32 : 64; unsigned cnt = 1 + h_below(8), j; size_t k = (size_t) sprintf(in, "Y a %d %d ", bits, (int) h_below(2));
+    for (; n; n--) { int bits = h_chance(50) ? 32 : 64; unsigned cnt = 1 + h_below(8), j;
+        /* now and then a long array: item and parameter counters of any width must carry it */
+        if (h_chance(1)) { static const unsigned big[] = {100, 127, 128, 129, 130, 200, 255, 256, 257, 258, 300}; cnt = big[h_below(11)]; } size_t k = (size_t) sprintf(in, "Y a %d %d ", bits, (int) h_below(2));
         for (j = 0; j < cnt * (unsigned)(bits / 8); j++) k += (size_t) sprintf(in + k, "%02x", h_chance(30) ? (h_chance(50) ? 0xff : 0) : h_below(256)); emit_case(in); }
 }
